@@ -398,7 +398,7 @@ impl Property for P {
         "C17"
     }
     fn rule(&self) -> String {
-        "exhaustive product: 5 versions x 9 methods x 5 Host shapes x 10 Content-Length shapes (valid, zero, caller-added, duplicate orig/orig and orig/added, negative, non-numeric, non-UTF-8, empty) x 6 Transfer-Encoding shapes x despite on/off x {Flow, Call::with_body, Call::without_body}. Each cell is written twice with a 4 KiB buffer and compared with the six-class model of the statement (reject: Err twice, never ready; accept: Ok with bytes, ready). class = api x model class.".into()
+        "exhaustive product: 5 versions x 9 methods x 5 Host shapes x 10 Content-Length shapes (valid, zero, caller-added, duplicate orig/orig and orig/added, negative, non-numeric, non-UTF-8, empty) x 6 Transfer-Encoding shapes x despite on/off x {Flow, Call::with_body, Call::without_body}. Each cell is written twice with a 4 KiB buffer and compared with the six-class model of the statement (reject: Err twice, never ready; accept: Ok with bytes, ready). class = api x model class. after-redirect x3: a transfer-encoding: chunked or content-length added by the caller to the body-less request a redirect created must be refused.".into()
     }
     fn assumptions(&self) -> Vec<String> {
         vec![
